@@ -1,5 +1,5 @@
 use crate::{
-    error::{ComputeError, ExecError, MemoryError, OpError, OpResult},
+    error::{ComputeError, ExecError, MemoryError, OpError, OpResult, OutOfGasError},
     Access, Gas, GasLimit, LazyCache, Memory, Op, OpAccess, OpGasCost, Repeat, Stack, StateReads,
     Vm,
 };
@@ -127,6 +127,16 @@ where
         .collect();
 
     let oks = results.map_err(|e| OpError::Compute(ComputeError::Exec(Box::new(e))))?;
+
+    // Sum the gas spent by the compute programs, failing rather than overflowing.
+    let mut children_gas: Gas = 0;
+    for (gas, ..) in &oks {
+        children_gas = children_gas.checked_add(*gas).ok_or(OutOfGasError {
+            spent: children_gas,
+            op_gas: *gas,
+            limit: gas_limit.total,
+        })?;
+    }
 
     // Process compute program results.
     let (pc, total_gas, halt) = compute_effects(memory, pc, halt, oks)?;
